@@ -126,10 +126,14 @@ def _delay(when: dawgie.EVENT) -> datetime.timedelta:
     today = now.isoweekday() - 1
 
     if when.moment.boot is not None:
-        if when in booted:
+        # algorithms compare equal when their versions do, so tell the events
+        # of two algorithms apart by name
+        known = (when.algref.factory, when.algref.impl.name(), when.moment)
+
+        if known in booted:
             raise _DelayNotKnowableError()
 
-        booted.append(when)
+        booted.append(known)
     else:
         if when.moment.day is not None:
             then = datetime.datetime(
